@@ -186,9 +186,9 @@ func (s *Symx) of(v ssa.Value, visiting map[ssa.Value]bool, depth int) *Term {
 
 	switch x := v.(type) {
 	case *ssa.Parameter:
-		return &Term{Op: "param", Name: x.Name(), Val: v}
+		return &Term{Op: "param", Name: canonicalName(x), Val: v}
 	case *ssa.FreeVar:
-		return &Term{Op: "freevar", Name: x.Name(), Val: v}
+		return &Term{Op: "freevar", Name: canonicalName(x), Val: v}
 	case *ssa.Const:
 		n := "nil"
 		if x.Value != nil {
@@ -510,7 +510,7 @@ func (s *Symx) load(u *ssa.UnOp, visiting map[ssa.Value]bool, depth int) *Term {
 		return rec(a)
 	case *ssa.FreeVar:
 		// captured variable cell: the variable itself
-		return &Term{Op: "freevar", Name: a.Name(), Val: a}
+		return &Term{Op: "freevar", Name: canonicalName(a), Val: a}
 	}
 	return &Term{Op: "deref", Args: []*Term{rec(u.X)}, Val: u}
 }
